@@ -20,11 +20,19 @@ def idx {n : Nat} (k : Fin (n + n)) : Fin n ⊕ Fin n :=
 def matRows {n : Nat} (D : Mat2 n ℚ) : List (List ℚ) :=
   List.ofFn fun i : Fin (n + n) => List.ofFn fun j : Fin (n + n) => D (idx i) (idx j)
 
+/-- `D J Dᵀ = J` decided exactly over ℚ (array arithmetic; a check on the model's output, not part
+of the model).  With `D = [[a, b], [c, d]]`: `D J Dᵀ = [[b aᵀ − a bᵀ, b cᵀ − a dᵀ], [d aᵀ − c bᵀ, d cᵀ − c dᵀ]]`
+— computed directly as a triple product on arrays. -/
 def isSymplectic {n : Nat} (D : Mat2 n ℚ) : Bool :=
-  let J := jMat n ℚ
-  let L := D * J * D.transpose
-  (List.finRange (n + n)).all fun i => (List.finRange (n + n)).all fun j =>
-    L (idx i) (idx j) == J (idx i) (idx j)
+  let m := n + n
+  let d : Array (Array ℚ) := Array.ofFn fun i : Fin m => Array.ofFn fun j : Fin m => D (idx i) (idx j)
+  let get (a : Array (Array ℚ)) (i j : Nat) : ℚ := (a.getD i #[]).getD j 0
+  -- J = [[0, -1], [1, 0]]:  (D J) i j = if j < n then D i (j + n) else - D i (j - n)
+  let dj : Array (Array ℚ) := Array.ofFn fun i : Fin m => Array.ofFn fun j : Fin m =>
+    if j.1 < n then get d i.1 (j.1 + n) else - get d i.1 (j.1 - n)
+  let jEntry (i j : Nat) : ℚ := if i < n ∧ j = i + n then -1 else if n ≤ i ∧ j + n = i then 1 else 0
+  (List.range m).all fun i => (List.range m).all fun j =>
+    ((List.range m).foldl (fun acc k => acc + get dj i k * get d j k) 0) == jEntry i j
 
 def wrapT {n : Nat} (f : ℚ → TState n ℚ → TState n ℚ) : ℚ → TState n ℚ → TState n ℚ :=
   fun t s => forceT (f t s)
